@@ -199,8 +199,13 @@ struct FaultOutcome {
 };
 
 // Executes prefix fault-free, then `op` under `plan` (empty plan = counting run).
-inline FaultOutcome runScenario(const History& prefix, const Op& op, const std::vector<uint64_t>& failAt, uint64_t failFrom) {
+// With `op2`: the plan stays armed after `op1` (a fail-from-k schedule spans operations) and `op2` is the operation that is
+// judged - the second failing operation of one document, whose state after the first failure is read back from the real
+// documents. *afterOp1 receives that state (for enumerating the second operations).
+inline FaultOutcome runScenario(const History& prefix, const Op& op1, const std::vector<uint64_t>& failAt, uint64_t failFrom,
+                                const Op* op2 = nullptr, World* afterOp1 = nullptr) {
   FaultOutcome F;
+  Op op = op1;
   World W;
   Real R;
   FaultPlan plan;
@@ -220,10 +225,34 @@ inline FaultOutcome runScenario(const History& prefix, const Op& op, const std::
   plan.armed = !failAt.empty() || failFrom;
   Expect E = modelApply(W, op);
   std::string ret = realApply(R, op);
-  plan.armed = false;
-  F.calls = plan.calls;
-  F.delivered = plan.delivered > 0;
-  if (!F.delivered) return F;
+  if (op2 || afterOp1) {
+    bool was = plan.armed;
+    plan.armed = false;  // reading the documents back must not consume fault positions
+    W.M[0] = extract(R.D[0]->as<JsonVariantConst>());
+    W.M[1] = extract(R.D[1]->as<JsonVariantConst>());
+    plan.armed = was;
+    if (afterOp1) *afterOp1 = W;
+  }
+  if (op2) {
+    if (plan.delivered == 0) return F;  // the first operation met no fault: not a two-failure history
+    uint64_t d0 = plan.delivered;
+    R.A[0].takeErrors();
+    R.A[1].takeErrors();
+    R.A[0].faultsDelivered = R.A[1].faultsDelivered = 0;
+    pre = W;
+    op = *op2;
+    E = modelApply(W, op);
+    ret = realApply(R, op);
+    plan.armed = false;
+    F.calls = plan.calls;
+    F.delivered = plan.delivered > d0;
+    if (!F.delivered) return F;  // the second operation needed no allocation
+  } else {
+    plan.armed = false;
+    F.calls = plan.calls;
+    F.delivered = plan.delivered > 0;
+    if (!F.delivered) return F;
+  }
   // ---- reporting rule
   bool someOverflowed = false;
   for (int a = 0; a < 2; a++) {
@@ -306,7 +335,8 @@ inline void runFault(Ctx& C) {
   size_t nBfs = states.size();
   for (auto& h : curatedPrefixes()) states.push_back(h);
   std::string cfg = cfgName();
-  uint64_t scenarios = 0, plans = 0, undelivered = 0;
+  uint64_t scenarios = 0, plans = 0, undelivered = 0, second = 0;
+  const bool twoOps = !C.flag("single-op");
   for (size_t si = 0; si < states.size(); si++) {
     if (C.expired()) break;
     const History& h = states[si];
@@ -348,6 +378,36 @@ inline void runFault(Ctx& C) {
       };
       for (uint64_t k = 1; k <= N; k++) exec({k}, 0);
       for (uint64_t k = 1; k < N; k++) exec({}, k);
+      // two failing operations in a row: the allocator keeps failing from position k on, and every operation enabled in the
+      // state that the first failure left behind is the second one
+      if (twoOps) {
+        for (uint64_t k = 1; k <= N; k++) {
+          World W1;
+          FaultOutcome F1 = runScenario(h, op, {}, k, nullptr, &W1);
+          if (!F1.delivered) continue;
+          std::vector<Op> ops2;
+          Alphabet ab2;
+          ab2.full = false;
+          enabledOps(W1, ab2, ops2);
+          for (auto& o2 : ops2) {
+            if (risky(o2) || o2.code == HANDLE_TAKE || docLevel(o2.code) || o2.code == DESERIALIZE) continue;
+            plans++;
+            C.evaluations++;
+            FaultOutcome F = runScenario(h, op, {}, k, &o2);
+            if (!F.delivered) { undelivered++; continue; }
+            std::string k2 = key + "|fault=from" + std::to_string(k) + "|then=" + opText(o2);
+            C.nontrivial(fnv1a(k2));
+            second++;
+            C.outcome(std::string("then-") + kCodeName[o2.code] + (F.problems.empty() ? ":ok" : ":violation"));
+            size_t i = 0;
+            while (i < F.problems.size()) {
+              size_t j = F.problems.find('\n', i), t = F.problems.find('\t', i);
+              C.failKey(k2, F.problems.substr(i, t - i), F.problems.substr(t + 1, j - t - 1));
+              i = j + 1;
+            }
+          }
+        }
+      }
       if (N <= 16)
         for (uint64_t i = 1; i <= N; i++)
           for (uint64_t j = i + 1; j <= N; j++) exec({i, j}, 0);
@@ -357,10 +417,12 @@ inline void runFault(Ctx& C) {
   C.metrics["scenarios"] += double(scenarios);
   C.metrics["fault_plans_executed"] += double(plans);
   C.metrics["fault_plans_not_reached"] += double(undelivered);
+  C.metrics["second_failing_operations_judged"] += double(second);
   if (C.shard == 0) C.metrics["scenario_prefix_states"] += double(states.size());
   faultInputs(C, C.thorough());
   C.bound("prefixes: all distinct states of depth <= " + std::to_string(D) + " (" + (AB.full ? "full" : "reduced") + " alphabet) + 5 curated longer ones; probes: every enabled "
-          "operation; plans: every single position, every fail-from-k, every pair when N <= 16; geometry " + cfg);
+          "operation; plans: every single position, every fail-from-k, every pair when N <= 16; "
+          "two failing operations in a row: every fail-from-k schedule continued into every enabled second operation; geometry " + cfg);
 }
 
 
